@@ -1,0 +1,24 @@
+//go:build verif
+
+// Contracts for package s3event, read by /verif/govc. Comments only; compiled only with tag "verif".
+package s3event
+
+// ---- C19: the event filter ---------------------------------------------------------------
+// An explicit entry for the event decides; otherwise the entry of its group wildcard
+// ("s3:ObjectCreated:*"); otherwise the event is not sent.
+//@ func (EventFilter) Filter
+//@   pure
+//@   let group = event[0:strings.LastIndex(event, ":") + 1] + "*"
+//@   ensures {C19} [explicit-entry-decides] in(event, ef) ==> ret0 == ef[event]
+//@   ensures {C19} [group-wildcard-otherwise] !in(event, ef) && in(group, ef) ==> ret0 == ef[group]
+//@   ensures {C19} [not-configured-not-sent] !in(event, ef) && !in(group, ef) ==> !ret0
+
+// events the filter switched off are not delivered; a batch delete sends one record per key
+//@ func (*Webhook) SendEvent
+//@   at-call s3event.Webhook.send {C19} [filtered-out-is-not-sent] requires old(w.filter) == nil || old(w.filter).Filter(meta.EventName)
+//@   at-call s3event.Webhook.send {C19} [batch-record-names-its-key] when meta.EventName == EventObjectRemovedDeleteObjects :: \
+//@        requires len($1.Records) > 0 && $1.Records[0].S3.Object.Key == key && $1.Records[0].S3.Object.VersionId == obj.VersionId
+
+//@ func createEventSchema
+//@   frame none
+//@   ensures {C19,C20} [one-record] len(ret0.Records) == 1
